@@ -89,6 +89,8 @@ def execute(prop, profile: str, source: Source, *, keep_log: bool = False, known
     from . import seams
     from .loop import Sim
     _worker_init()
+    if getattr(prop, "gc_before", False):
+        gc.collect()
     sim = Sim(source, keep_log=keep_log, **prop.sim_options(profile))
     sim.known = known or {}
     sim.known_seen = Counter()
@@ -177,6 +179,8 @@ def _chunk(pid: str, profile: str, base_seed: int, start: int, count: int, want_
             if len(agg["harness"]) < 3:
                 agg["harness"].append({"seed": source.seed, "error": res["harness"],
                                        "trace": res["trace"]})
+        elif res["violation"] and res["violation"]["signature"] in known:
+            agg["known_seen"][res["violation"]["signature"]] += 1
         elif res["violation"]:
             sig = res["violation"]["signature"]
             slot = agg["violations"].get(sig)
